@@ -40,6 +40,9 @@ type V3Op struct {
 	Ops    []MOp  `json:"ops,omitempty"`
 	Of     int    `json:"of,omitempty"` // rollback: 1-based log index
 	Poison bool   `json:"poison,omitempty"`
+	// WaitApplied (rollback): the request is made only once the change has been applied (otherwise it is made whenever the
+	// scheduler picks it, and dropped if the change is not committed yet)
+	WaitApplied bool `json:"waitApplied,omitempty"`
 }
 
 // V3Plan is the v3sim part of a plan.
@@ -48,6 +51,8 @@ type V3Plan struct {
 	// applies its rollback (the second Set its reconciles issue); the device then definitely refuses that Set and the
 	// Burst-th store write after the answer fails (Kind op-unavail) or loses its acknowledgement (op-acklost)
 	RefuseRollback *V3Refuse `json:"refuseRollback,omitempty"`
+	// WaitCommitted: rollback requests wait until the change they name is committed (or has failed to)
+	WaitCommitted bool `json:"waitCommitted,omitempty"`
 	Ops            []V3Op    `json:"ops"`
 	Seed           bool      `json:"seed"` // the Configuration record is created with one initial committed value
 }
@@ -235,6 +240,30 @@ func genV3Plan(seed uint64, tier string) *Plan {
 		p.Faults = append(p.Faults, Fault{Kind: "dev-error", On: "devset", Target: "t1", N: n, Code: int(refusals[g.pick(len(refusals))])})
 		if g.chance(1, 2) {
 			p.Faults = append(p.Faults, Fault{Kind: []string{"op-unavail", "op-acklost"}[g.pick(2)], On: "after-devset", Target: "t1", N: n, Burst: g.pick(3)})
+		}
+	}
+	vp.WaitCommitted = g.chance(1, 2)
+	if g.chance(1, 8) {
+		// (round 2) structured instead of random: one or two changes, the rollback of the last one, the device refuses
+		// exactly that rollback's Set and a store write right after the answer fails or loses its acknowledgement - the
+		// recovery branches of the rollback path. A seeded change in them (wave 3) was flagged by one run in 3000 of the
+		// random mix, and by none after the schema grew: too thin to rely on.
+		var apps []V3Op
+		for _, o := range vp.Ops {
+			if o.Kind == "append" && !o.Poison && len(apps) < 2 {
+				apps = append(apps, o)
+			}
+		}
+		if len(apps) > 0 {
+			if len(apps) == 2 && g.chance(1, 2) {
+				apps = apps[:1]
+			}
+			vp.Ops = append(apps, V3Op{Kind: "rollback", Of: len(apps), WaitApplied: true})
+			refusals := []codes.Code{codes.InvalidArgument, codes.Internal, codes.Unknown, codes.FailedPrecondition}
+			vp.RefuseRollback = &V3Refuse{Pick: 0, Code: int(refusals[g.pick(len(refusals))]), Kind: []string{"op-unavail", "op-acklost"}[g.pick(2)], Burst: g.pick(3)}
+			p.Faults = nil
+			p.Knobs.ConnLate = map[string]bool{"t1": false}
+			p.Profile = "v3-protocol+rollback-refused"
 		}
 	}
 	return p
@@ -800,6 +829,19 @@ func v3Bubble(plan *Plan, res *Result) {
 			return nil
 		}
 		i := s.nextOp
+		if i >= 1 && i <= len(vp.Ops) && vp.Ops[i-1].Kind == "rollback" {
+			tx := s.txs[uint64(vp.Ops[i-1].Of)]
+			if vp.Ops[i-1].WaitApplied {
+				if tx == nil || tx.Status.Change.Apply == nil || tx.Status.Change.Apply.State != configv3.TransactionPhaseStatus_COMPLETE {
+					return nil
+				}
+			} else if vp.WaitCommitted && (tx == nil || tx.Status.Change.Commit == nil ||
+				(tx.Status.Change.Commit.State != configv3.TransactionPhaseStatus_COMPLETE && tx.Status.Change.Commit.State != configv3.TransactionPhaseStatus_FAILED)) {
+				// RollbackChange is enabled for committed changes only (spec): in these runs the client waits for that
+				// instead of asking at a random moment and being turned away
+				return nil
+			}
+		}
 		return []Action{{Key: fmt.Sprintf("cli/%d", i), Task: fmt.Sprintf("cli/%d", i), Fire: func() {
 			s.nextOp++
 			s.opBusy = true
